@@ -613,6 +613,49 @@ func ruleC08Lookup(c *Checker) {
 			}
 		}
 	}
+	if !deleg {
+		// the remote lookup repeated in place: the directory recorded for the package of the joined address,
+		// and the joined address's sub-path below it
+		for _, r := range successReturns(fr) {
+			for _, v := range returnValues(r, 0) {
+				if v == nil {
+					continue
+				}
+				var final []*ssa.Call
+				sl := p.backSlice(v, 0)
+				for x := range sl {
+					if c2, ok := x.(*ssa.Call); ok && c2.Common().StaticCallee() != nil && c2.Common().StaticCallee().Name() == "FinalSourceAddr" {
+						final = append(final, c2)
+					}
+				}
+				fromFinal := func(w ssa.Value) bool {
+					ws := p.backSlice(w, 0)
+					for _, f := range final {
+						if ws[f] {
+							return true
+						}
+					}
+					return false
+				}
+				dirOK, subOK := false, false
+				for x := range sl {
+					switch y := x.(type) {
+					case *ssa.Lookup:
+						if fa := loadedField(y.X); fa != nil && fa.Name() == "remotePackageDirs" && fromFinal(y.Index) {
+							dirOK = true
+						}
+					case *ssa.Call:
+						if o := calleeObj(y); o != nil && o.Name() == "SubPath" && len(y.Call.Args) > 0 && fromFinal(y.Call.Args[0]) {
+							subOK = true
+						}
+					}
+				}
+				if len(final) > 0 && dirOK && subOK {
+					deleg = true
+				}
+			}
+		}
+	}
 	c.check(deleg, R, p.FuncName(fr), "delegates to the remote lookup", p.Pos(fr.Pos()), "LocalPathForRemoteSource(addr.FinalSourceAddr(recorded))", "a registry source no longer resolves to the location of the remote address the registry named")
 	for _, acc := range []struct{ fn, field string }{{"Bundle.RemotePackageMeta", "remotePackageMeta"}, {"Bundle.RegistryPackageVersionDeprecation", "registryPackageVersionDeprecations"}, {"Bundle.RegistryPackageSourceAddr", "registryPackageSources"}} {
 		f := p.Fn(bundlePkg, acc.fn)
